@@ -499,7 +499,9 @@ def random_case(rng, W=1):
     between = rng.choice([["draws", rng.choice([0, 1, 5])], ["reseed", rng.choice(SEEDS), rng.choice([0, 3])]])
     return {"W": W, "mode": mode, "seed": rng.choice(SEEDS), "c0": rng.choice([0, 1, 6]), "take": specs,
             "restore": [restore_spec(rng, s, same=rng.random() < 0.3) for s in specs], "between": between,
-            "batching": rng.random() < 0.5, "chunk": rng.choice([None, None, 16, 64]), "slab": rng.choice([None, None, 24, 4096])}
+            "batching": rng.random() < 0.5, "chunk": rng.choice([None, None, 16, 64]), "slab": rng.choice([None, None, 24, 4096]),
+            # the per-rank memory budget (take and restore): tight budgets make requests wait for budget
+            "budget": rng.choice([100000000, 100000000, 1, 64, 1024])}
 
 
 def case_ok_for_table(case):
